@@ -82,6 +82,7 @@ pub fn decode(seg: &[u8]) -> Result<Vec<i128>, VlqErr> {
 /// Self-test + cross-check against the third-party `vlq` crate. Panics on disagreement
 /// (that would be a harness error, not a property violation).
 pub fn self_check(rng: &mut crate::rng::Rng, n: u64) -> u64 {
+    let n = if cfg!(miri) { n.min(40) } else { n };
     let mut checked = 0;
     for i in 0..n {
         let v: i64 = match i % 4 {
